@@ -93,6 +93,12 @@ def cases(ctx):
         yield {'kind': 'cold_start', 'threads': 8, 'salt': ctx.shard * 100 + j}
     if ctx.shard in (5, 6):
         yield {'kind': 'composed', 'salt': ctx.shard}
+    # the same round trips in interpreters started with other options, and in other time zones
+    from .. import optrun
+    combos = [(o, None) for o in optrun.OPTION_SETS] + [((), 'EST5EDT,M3.2.0,M11.1.0'), ((), 'XXX3YYY,M10.3.0/0,M2.3.0/0'), (('-O',), 'EST5EDT,M3.2.0,M11.1.0')]
+    for j, (opts, tz) in enumerate(combos):
+        if ctx.shard == (8 + j) % ctx.nshards:
+            yield {'kind': 'interpreter_options', 'options': list(opts), 'tz': tz, 'salt': 900 + j + ctx.seed}
 
 
 # -------------------------------------------------------------------------------------------------------- round trip
@@ -105,6 +111,8 @@ def judge(ctx, case):
         return judge_cold_start(ctx, case)
     if case['kind'] == 'composed':
         return judge_composed(ctx, case)
+    if case['kind'] == 'interpreter_options':
+        return judge_interpreter_options(ctx, case)
     return judge_threads(ctx, case)
 
 
@@ -532,6 +540,100 @@ class _ThroughReader(io.RawIOBase):
         return out
 
 
+def gap_datetimes():
+    """Wall-clock times that do not exist in some time zone: the hour skipped when daylight saving starts (02:00-03:00 on
+    the second Sunday of March under the US rule; 00:00-01:00 on the third Sunday of October under a rule that switches
+    at midnight), plus the repeated hour and ordinary neighbours."""
+    import datetime
+    out = []
+    for year in (2015, 2019, 2021, 2024):
+        d = datetime.date(year, 3, 8)
+        d += datetime.timedelta(days=(6 - d.weekday()) % 7)
+        o = datetime.date(year, 10, 15)
+        o += datetime.timedelta(days=(6 - o.weekday()) % 7)
+        for day, hours in ((d, (1, 2, 3)), (o, (0, 1, 23))):
+            for h in hours:
+                out.append(datetime.datetime(day.year, day.month, day.day, h, 30, 0))
+        n = datetime.date(year, 11, 1)
+        n += datetime.timedelta(days=(6 - n.weekday()) % 7)
+        out.append(datetime.datetime(n.year, n.month, n.day, 1, 30, 0))
+    return out
+
+
+def judge_interpreter_options(ctx, case):
+    """Round trips made in a child interpreter started with other options (-bb, -O, ...) or under another TZ: the file
+    must still be the reference framing of the reference encodings, and what is read back the messages written."""
+    import tempfile
+    from .. import optchild, optrun
+    cfg = msgwork.cfg_of('packaged')
+    rng = ctx.rng_global('opt', case['salt'])
+    jobs, expect = [], []
+    for enc in ('latin_1', 'cp500'):
+        for blocked in (False, True):
+            msgs = gen_list(rng, cfg, enc, 6, True)
+            big = gen.gen_message(rng, cfg, enc, subset=[2, 3, 4, 54, 72, 111, 127], pds_mode='none',
+                                  lengths={54: 120, 72: 999, 111: 999, 127: 999})
+            msgs.insert(2, big)
+            for k, dt in enumerate(gap_datetimes()[:8] if case['tz'] else ()):
+                msgs.append({'MTI': '1240', 'DE2': '4444555566667777', 'DE12': dt, 'DE71': k + 1})
+            wires = [ref.encode(x, cfg, enc) for x in msgs]
+            want = refb.vbs(wires)
+            want = refb.block(want) if blocked else want
+            jobs.append({'op': 'roundtrip', 'enc': enc, 'blocked': blocked, 'msgs': optchild.jsonable([dict(x) for x in msgs])})
+            expect.append(('roundtrip', want, [gen.expected_roundtrip(x, cfg) for x in msgs], blocked))
+    for blocked in (False, True):
+        recs = [bytes((7 * i + j) % 251 for j in range(n)) for i, n in enumerate((5, 2500, 1004, 3036, 6000, 1))]
+        want = refb.vbs(recs)
+        jobs.append({'op': 'vbs', 'blocked': blocked, 'recs': [r.hex() for r in recs]})
+        expect.append(('vbs', refb.block(want) if blocked else want, recs, blocked))
+    tmp = tempfile.mkdtemp(prefix='vmon-c06-opt-')
+    status, answers, at, done, err = optrun.run(ctx, jobs, case['options'], tmp, tz=case['tz'])
+    label = ' '.join(case['options']) or 'default options'
+    label += (' TZ=' + case['tz'].split(',')[0]) if case['tz'] else ''
+    ctx.case_done(['opt', case['options'], case['tz']], nontrivial=True)
+    ctx.seen('interpreter options / time zones the round trips were repeated under', label)
+    if status == 'wall' or (not done and status == 'ok' and not answers):
+        ctx.inconclusive_because('interpreter-options child did not finish (%s): %s' % (label, err[-200:]))
+        return
+    if status == 'cpu':
+        ctx.violation('options:%s:cpu_allowance_used_up' % label, {'case': case, 'job': at})
+        return
+    for i, (op, want_file, want_back, blocked) in enumerate(expect):
+        a = answers.get(i)
+        ctx.count('round trips judged in a child interpreter')
+        if a is None:
+            ctx.violation('options:%s:child_ended_in_job' % label, {'case': case, 'job': i, 'stderr': err})
+            return
+        if 'ok' not in a:
+            ctx.violation('options:%s:%s:%s' % (label, op, 'escape:%s@%s' % (a.get('escape'), a.get('where')) if 'escape' in a else 'refused:' + a['lib']),
+                          {'case': case, 'job': i})
+            return
+        got_file = bytes.fromhex(a['ok']['file'])
+        if got_file != want_file and not (blocked and got_file == want_file + refb.FILL_BLOCK):
+            ctx.violation('options:%s:%s:file_differs_from_reference_framing' % (label, op),
+                          {'case': case, 'job': i, 'got_len': len(got_file), 'want_len': len(want_file)})
+            return
+        if op == 'vbs':
+            if [bytes.fromhex(r) for r in a['ok']['back']] != want_back:
+                ctx.violation('options:%s:vbs:records_differ' % label, {'case': case, 'job': i})
+                return
+            continue
+        back = optchild.unjsonable(a['ok']['back'])
+        if len(back) != len(want_back):
+            ctx.violation('options:%s:roundtrip:record_count_differs' % label, {'case': case, 'job': i})
+            return
+        for idx, (w, g) in enumerate(zip(want_back, back)):
+            bad = [k for k, v in w.items() if k not in g or g[k] != v]
+            if bad:
+                ctx.violation('options:%s:roundtrip:message_changed:%s' % (label, 'datetime' if bad == ['DE12'] else 'other'),
+                              {'case': case, 'job': i, 'index': idx, 'keys': bad[:4], 'sent': repr(w.get(bad[0]))[:80], 'got': repr(g.get(bad[0]))[:80]})
+                return
+        info = a['ok'].get('info') or {}
+        if info.get('isValidIPM') is not True:
+            ctx.violation('options:%s:roundtrip:inspection_says_invalid' % label, {'case': case, 'job': i, 'info': info})
+            return
+
+
 def judge_composed(ctx, case):
     """
     Readers that depend on each other's progress: one reader's file object is fed by another reader, and a reader whose
@@ -641,6 +743,8 @@ def require(m):
         reasons.append('no file with same-keys-other-sizes neighbours')
     if not {'list', 'next_then_for', 'for_break_for'} <= set(m['classes'].get('ways the reader was walked', ())) and not m['violations']:
         reasons.append('reader walking styles not all used')
+    if len(set(m['classes'].get('interpreter options / time zones the round trips were repeated under', ()))) < 6 and not m['violations']:
+        reasons.append('round trips not repeated under all interpreter options / time zones')
     if not c.get('composed reader runs'):
         reasons.append('composed readers never run')
     if not c.get('round trips of files over 1 MiB'):
